@@ -165,6 +165,10 @@ def check_c05(pid, tier, t0, replay_key):
     findings += ft3
     obl += ot3
     st1.update(stt3)
+    ft4, ot4, stt4 = e5.rule_t4(P)
+    findings += ft4
+    obl += ot4
+    st1.update(stt4)
     measured = {"functions_scanned": st3["functions_scanned"], "discard_sites": st3["discard_sites"],
                 "merge_list": len(st1["merge_list"]), "has_arms": st1["has_arms"], "bytes_for_arms": st1["bytes_for_arms"],
                 "count_fields_checked": st1["count_fields_checked"]}
@@ -477,18 +481,26 @@ def check_c18(pid, tier, t0, replay_key):
     findings, obl, samples, st_h, _ = e2.run_h(P, tables, scope_filter=in_name_flow, rule="H")
     st = base_stats(P)
     st.update(st_h)
+    import e5
+    ft4, ot4, stt4 = e5.rule_t4(P)
+    findings += ft4
+    obl += ot4
+    st.update(stt4)
     st["name_flow_prefixes"] = list(NAME_FLOW)
     common.check_floors(pid, st, tables)
     if tier == "thorough":
         st["selftest"] = run_selftest(pid)
     explanation = (
-        "Decides one clause of C18 - 'the result does not depend on anything but the source': the hash-order rule of C01 (engine E2) restricted to "
+        "Decides two clauses of C18. (T4) 'name ids coming from feature code are shifted past the ids already used': every output-table field that "
+        "receives an id minted by fea-rs's NameBuilder (feature parameters, STAT) is one that Compilation::remap_name_ids adjusts - a forgotten field "
+        "keeps naming the old id, i.e. no record or someone else's (this found FeatureParams::Size.name_entry, repaired). (H) 'the result does not "
+        "depend on anything but the source': the hash-order rule of C01 (engine E2) restricted to "
         "the name flow: name-id allocation and reuse in StaticMetadata::new / NameBuilder, the name table job (sort or BTreeMap merge of records), "
         "fvar and STAT name references, fea-rs name-id handling (compile::output, tables::name, tables::stat) and the name-id remap in "
         "FeatureCompilationWork. Each hash iteration there is auto-safe, audited with a witness, or reported (this found the find_map over "
         "StaticMetadata.names that made the default instance's subfamily-name reuse random; repaired in 57ad74d). NOT decided: referential "
-        "integrity of name ids across fvar/STAT/feature parameters, the fallback chain for family/style/version strings (values).")
-    rule_text = "one obligation per hash-iteration site group inside the name flow"
+        "integrity of name ids in general (fvar/STAT lookups by string, empty records), the fallback chain for family/style/version strings (values).")
+    rule_text = "one obligation per hash-iteration site group inside the name flow, one per output-table field that receives a minted name id"
     return common.finish(pid, tier, t0, findings, obl, samples, explanation, rule_text, st, [], TRUSTED,
                          f"./check {pid} --tier {tier}", replay_key)
 
